@@ -9,8 +9,11 @@ ROOT = os.path.dirname(os.path.dirname(os.path.abspath(__file__)))
 sys.path.insert(0, ROOT)
 
 PARTIAL = {
+    "C02": "PARTIAL: the full statement is proved over the real numbers for all four schedulers; NumPy's float-to-int64 cast is modelled as exact rounding, "
+           "so its overflow is outside the model (known finding D14: vectorized_ltf_plan at olap = 1-2^-53 leaves a bin without segments; overlaps up to 1-2^-30 are probed clean on every scheduler)",
     "C04": "PARTIAL: sub-claim 'vectorised bin count within 10% of the iterative one' is probed on the real schedulers only (known finding D10 for Jdes<10); "
-           "L/K monotonicity is proved for the iterative LTF/LPSD plans and checked by the oracle for the other two schedulers",
+           "L/K monotonicity is proved for the iterative LTF/LPSD plans and checked by the oracle for the other two schedulers "
+           "(known finding D14: vectorized_ltf_plan at olap = 1-2^-53, int64 cast overflow in float arithmetic the model does not carry)",
     "C06": "PARTIAL: the calibration bound is proved in closed form for every detrend order (-1, 0, and 1-2 for any basis Q: r = rho + 2 sum_k rho_k); "
            "how small the leakage terms rho, rho_k are for the Kaiser window is C12's numeric residual (measured, not proved)",
     "C10": "PARTIAL: every functional form, inequality and limit is proved; the sentence 'match the observed spread for Gaussian data' is proved under an explicit statistical model "
